@@ -1,4 +1,5 @@
 """C07 - errors become error events, never crashes (DESIGN 4/C07)."""
+import re
 from .. import facts, cg, exc, cfg as cfgm, tab
 from ..facts import AnalysisBroken, strip, sub, locstr
 from . import C17
@@ -101,6 +102,99 @@ def block_granularity(rep, fb, rule):
 
 
 
+def lua_marshalling_faults(rep, fb):
+    """R07.8 - R07.10: the Lua <-> Data marshalling does not kill the process"""
+    rep.rule('R07.8', 'DOM nodes stay with their document: SWIG_Lua_NewPointerObj is called with own = 0 for nodes that the document owns (SWIG_POINTER_DISOWN is the flag 1: Lua\'s garbage collector would delete a pool-allocated node), and the pushed userdata is read from the top of the stack')
+    rep.rule('R07.9', 'marshalling a table terminates: the recursion of getLuaAsData over table values is bounded (depth parameter or visited set tested before the recursive call); node.parent = node or _G as a value raise error.execution, not a stack overflow')
+    rep.rule('R07.10', 'no Lua error outside a protected call: LuaRef::cast<T> on a table key or value is reached only under a test of the matching Lua type (cast goes through luaL_check*, which calls lua_error -> panic -> abort when the type does not fit)')
+    lf = [f for f in fb.funcs.values() if f.file.endswith('lua/LuaDataModel.cpp') and f.d.get('body')]
+    if not lf:
+        raise AnalysisBroken('LuaDataModel.cpp not in the fact base')
+    n8 = 0
+    for f in lf:
+        for n in f.walk():
+            if n['k'] == 'CallExpr' and n.get('callee', {}).get('q', '') == 'SWIG_Lua_NewPointerObj':
+                n8 += 1
+                own = n['c'][4] if len(n.get('c', [])) > 4 else None
+                ownv = tab.const_of(own) if own is not None else None
+                from_macro = own is not None and any(m[0] == 'SWIG_POINTER_DISOWN' for x in sub(own) for m in (x.get('mac') or []))
+                rep.check(ownv == 0 and not from_macro, 'R07.8', '%s|own#%d' % (f.q.split('::')[-1], n['loc'][1]), locstr(n), 'SWIG_Lua_NewPointerObj(..., own = %s%s)%s' % (
+                    ownv, ' via SWIG_POINTER_DISOWN' if from_macro else '', '' if ownv == 0 and not from_macro else ': Lua owns the document\'s node and deletes it on the next garbage collection or at lua_close (free(): invalid pointer)'))
+                # the value just pushed is the top of the stack
+                par = None
+                for x in f.walk():
+                    if x['k'] == 'CallExpr' and x.get('callee', {}).get('q', '').endswith('LuaRef::fromStack') and x['loc'][1] in (n['loc'][1] + 1, n['loc'][1] + 2):
+                        par = x
+                if par is not None:
+                    idx = tab.const_of(par['c'][2]) if len(par.get('c', [])) > 2 else None
+                    rep.check(idx == -1, 'R07.8', '%s|fromStack#%d' % (f.q.split('::')[-1], par['loc'][1]), locstr(par), 'the pushed node is read with fromStack(L, %s)%s' % (idx, '' if idx == -1 else ': index 1 is the BOTTOM of the stack - a second XML value sees the first one\'s node'))
+    rep.minimum('R07.8', n8, 2, 'SWIG_Lua_NewPointerObj calls in the Lua data model')
+    l2d = next((f for f in lf if f.q == 'uscxml::getLuaAsData'), None)
+    if l2d is None:
+        raise AnalysisBroken('getLuaAsData not found')
+    g = cfgm.CFG(l2d)
+    from .C08 import edge_dominates
+    rec = [n for n in l2d.walk() if n['k'] == 'CallExpr' and n.get('callee', {}).get('q', '') == 'uscxml::getLuaAsData' and n['id'] in g.pos]
+    rep.minimum('R07.9', len(rec), 1, 'recursive calls in getLuaAsData')
+    params = {p_['lid']: p_ for p_ in l2d.d.get('params', [])}
+    bound_lids = {lid for lid, p_ in params.items() if re.search(r'\b(int|size_t|unsigned|long|std::set|std::vector)\b', p_.get('t') or '')}
+    for r_ in rec:
+        tb = g.pos[r_['id']][0]
+        ok = False
+        for bid, blk in g.blocks.items():
+            c = blk.get('cond')
+            if c is None or c not in l2d.nodes or bid == tb:
+                continue
+            if any(x['k'] == 'DeclRefExpr' and x.get('ref', {}).get('lid') in bound_lids for x in sub(l2d.nodes[c])) and (edge_dominates(g, bid, True, tb) or edge_dominates(g, bid, False, tb)):
+                ok = True
+        rep.check(ok, 'R07.9', 'getLuaAsData|recursion#%d' % r_['loc'][1], locstr(r_), 'the recursive call for a table value is %s' % ('under a test of a depth / visited parameter' if ok else 'UNBOUNDED: a table that contains itself (node.parent = node, <param expr="_G"/>) recurses until the stack overflows (SIGSEGV)'))
+    casts = [n for n in l2d.walk() if n['k'] == 'CXXMemberCallExpr' and n.get('callee', {}).get('q', '').startswith('luabridge::LuaRef::cast') and n['id'] in g.pos]
+    rep.minimum('R07.10', len(casts), 3, 'LuaRef::cast uses in getLuaAsData')
+    TYPE_TESTS = {'long': ('isInteger', 'lua_isinteger'), 'double': ('isNumber',), 'int': ('isInteger', 'lua_isinteger'), 'std::string': ('isString', 'isNumber'), 'std::basic_string<char>': ('isString', 'isNumber')}
+    for c_ in casts:
+        base = ' '.join(fb.text(c_['c'][0]['c'][0]).split()) if c_['c'][0].get('c') else '?'
+        want = TYPE_TESTS.get((c_.get('t') or '').replace('const ', ''), ('isNumber', 'isString'))
+        tb = g.pos[c_['id']][0]
+        ok = False
+        for bid, blk in g.blocks.items():
+            cnd = blk.get('cond')
+            if cnd is None or cnd not in l2d.nodes:
+                continue
+            for x in sub(l2d.nodes[cnd]):
+                if x['k'] == 'CXXMemberCallExpr' and x.get('callee', {}).get('q', '').split('::')[-1] in want + ('type',) and x['c'][0].get('c') and ' '.join(fb.text(x['c'][0]['c'][0]).split()) == base:
+                    if bid == tb or edge_dominates(g, bid, True, tb) or edge_dominates(g, bid, False, tb):
+                        ok = True
+        rep.check(ok, 'R07.10', 'getLuaAsData|%s.cast<%s>#%d' % (base, (c_.get('t') or '?').split('::')[-1][:12], c_['loc'][1]), locstr(c_), '%s.cast<%s>() is reached %s' % (base, c_.get('t'), 'under a test of the Lua type of %s' % base if ok else
+                  'WITHOUT a test of the type of %s: for a key such as true, 0.5 or {} luaL_check* raises a Lua error outside any pcall - "PANIC: unprotected error", abort()' % base))
+
+
+def double_delete(rep, fb):
+    """R07.11: a member pointer deleted outside the destructor is nulled there"""
+    rep.rule('R07.11', 'no double delete of a member: a member function other than the destructor that deletes a member pointer which the destructor deletes (or joins) too resets the member to NULL on the same path')
+    n = 0
+    for cls, r in fb.records.items():
+        if not cls.startswith('uscxml::'):
+            continue
+        dtor = next((f for f in fb.funcs.values() if f.rec == cls and f.q.split('::')[-1].startswith('~')), None)
+        if dtor is None:
+            continue
+        ddel = {strip(x['c'][0]).get('ref', {}).get('name') for x in dtor.walk() if x['k'] == 'CXXDeleteExpr' and x.get('c') and strip(x['c'][0]) is not None and strip(x['c'][0])['k'] == 'MemberExpr'}
+        if not ddel:
+            continue
+        for f in [f_ for f_ in fb.funcs.values() if f_.rec == cls and f_ is not dtor and f_.d.get('cfg')]:
+            g = cfgm.CFG(f)
+            for x in f.walk():
+                if x['k'] == 'CXXDeleteExpr' and x.get('c') and strip(x['c'][0]) is not None and strip(x['c'][0])['k'] == 'MemberExpr' and strip(x['c'][0])['ref'].get('name') in ddel and x['id'] in g.pos:
+                    name = strip(x['c'][0])['ref']['name']
+                    n += 1
+                    nulls = [y['id'] for y in f.walk() if y['k'] == 'BinaryOperator' and y.get('op') == '=' and strip(y['c'][0]) is not None and strip(y['c'][0])['k'] == 'MemberExpr' and
+                             strip(y['c'][0])['ref'].get('name') == name and y['id'] in g.pos]
+                    w = g.can_reach(g.pos[x['id']], ['EXIT'], avoid=nulls)
+                    rep.check(w is None, 'R07.11', '%s::%s|delete %s' % (cls.split('::')[-1], f.q.split('::')[-1], name), locstr(x), '%s deletes %s, which the destructor deletes as well; the member is %s' % (
+                        f.q.split('::')[-1], name, 'reassigned on every path after the delete' if w is None else 'NOT reset: the destructor joins / deletes the freed object again (SIGSEGV when the invoking state is left)'))
+    rep.minimum('R07.11', n, 1, 'member deletes outside destructors whose member the destructor deletes too')
+
+
 NULLABLE = ('lua_tolstring', 'getenv', 'lua_tostring')
 TYPE_GUARDS = ('lua_isstring', 'lua_type', 'lua_isnumber')
 
@@ -182,6 +276,8 @@ def run(rep, tier):
     rep.minimum('R07.1', nthrow, 120, 'throw sites in the library')
 
     null_strings(rep, fb, 'R07.7')
+    lua_marshalling_faults(rep, fb)
+    double_delete(rep, fb)
     # ---- R07.1
     for eq in ENGINES:
         f = fb.fn(eq)
